@@ -41,7 +41,8 @@ ASSUMPTIONS = [
     "no faults are injected into the file object: the property promises nothing for "
     "truncated or corrupt archives",
 ]
-PROBES = ["readline_unterminated_last_line_odd", "readline_unterminated_last_line_even",
+PROBES = ["clients_start_before_any_listing", "file_replaced_under_live_reader",
+          "readline_unterminated_last_line_odd", "readline_unterminated_last_line_even",
           "readline_n_crossing_member_end", "read_after_seek_past_end",
           "alternating_single_byte_reads", "duplicate_name_lookup", "empty_member",
           "two_arfiles_one_fileobj", "opened_by_filename", "readlines_on_non_last_member",
@@ -112,6 +113,14 @@ def generate(seed, run, tier):
                         "mode": rw.choice([0o100644, 0o100755, 0o644])})
     narch = rs.choice([1, 1, 2, 2, 3])
     archives = [rs.choice(["fileobj", "fileobj", "filename"]) for _ in range(narch)]
+    # is the listing taken before the clients start, or only at the end (lookups and
+    # abandoned iterations then hit an archive nobody has listed yet)
+    list_first = [rs.random() < 0.5 for _ in range(narch)]
+    # an earlier, different archive at the same path whose reader is still alive
+    prior = None
+    if "filename" in archives and rs.random() < 0.4:
+        prior = [{"name": (rw.choice(names_pool)[:15] if rw.random() < 0.5 else "p%d" % k),
+                  "data": enc_bytes(_gen_data(rw, 3))} for k in range(rw.randint(1, 3))]
     # swarm: op weights
     w = {"read_n": rs.choice([1, 4, 8]), "read_all": rs.choice([0, 1, 2]),
          "read_neg": rs.choice([0, 1]), "readline": rs.choice([1, 4, 8]),
@@ -125,7 +134,8 @@ def generate(seed, run, tier):
     for _ in range(nsteps if nm else 0):
         if rq.random() > sticky * 0.8:
             cur = (rq.randrange(narch), rq.randrange(nm),
-                   rq.choice(["members", "members", "getmember", "getitem", "iter"]))
+                   rq.choice(["members", "members", "getmember", "getitem", "iter",
+                              "iter_partial", "iter_partial"]))
         k = rq.choice(kinds)
         st = {"a": cur[0], "m": cur[1], "via": cur[2], "op": k}
         if k == "read_n":
@@ -141,7 +151,8 @@ def generate(seed, run, tier):
             st["w"] = rq.choice([0, 0, 1, 2])
             st["rel_end"] = rq.random() < 0.5   # interpret t as distance from the end
         steps.append(st)
-    return {"world": {"members": members, "archives": archives}, "trace": steps}
+    return {"world": {"members": members, "archives": archives, "list_first": list_first,
+                      "prior": prior}, "trace": steps}
 
 
 def describe(case):
@@ -169,15 +180,35 @@ def execute(case):
     shared = SimFile(blob)
     path = None
     ars = []
-    opened_files = []
+    stale = []
     try:
         for kind in world["archives"]:
             if kind == "filename":
                 if path is None:
                     path = os.path.join(_scratch(), "a.ar")
-                    fd = os.open(path, os.O_WRONLY | os.O_CREAT | os.O_TRUNC, 0o644)
-                    os.write(fd, blob)
-                    os.close(fd)
+                    if world.get("prior"):
+                        # history: another archive lived at this path, its reader read
+                        # something and is still alive; then the file was replaced
+                        pm = [(m["name"], dec_bytes(m["data"])) for m in world["prior"]]
+                        fd = os.open(path, os.O_WRONLY | os.O_CREAT | os.O_TRUNC, 0o644)
+                        os.write(fd, arwriter.build([{"name": n, "data": d} for n, d in pm]))
+                        os.close(fd)
+                        old_ar = arfile.ArFile(filename=path)
+                        for m_, (n_, d_) in zip(old_ar.getmembers(), pm):
+                            if m_.read() != d_:
+                                raise Violation("result-differs-from-in-memory-file", "read",
+                                                {"where": "prior archive"})
+                        stale.append(old_ar)
+                        out.probe("file_replaced_under_live_reader")
+                        tmp = path + ".tmp"
+                        fd = os.open(tmp, os.O_WRONLY | os.O_CREAT | os.O_TRUNC, 0o644)
+                        os.write(fd, blob)
+                        os.close(fd)
+                        os.replace(tmp, path)
+                    else:
+                        fd = os.open(path, os.O_WRONLY | os.O_CREAT | os.O_TRUNC, 0o644)
+                        os.write(fd, blob)
+                        os.close(fd)
                 r = _call(lambda: arfile.ArFile(filename=path))
                 out.probe("opened_by_filename")
             else:
@@ -194,7 +225,9 @@ def execute(case):
         last = {}
         for i, n in enumerate(names):
             last[n] = i
-        for ai, ar in enumerate(ars):
+        lf = world.get("list_first") or [True] * len(ars)
+
+        def check_listing(ai, ar):
             got = ar.getmembers()
             listing = [(m.name, m.size, m.owner, m.group, m.mtime) for m in got]
             want = [(m["name"], len(d), m["uid"], m["gid"], m["mtime"])
@@ -214,6 +247,12 @@ def execute(case):
             r = _call(ar.getmember, "no-such-member/")
             if r[0] != "exc" or not r[1].startswith("KeyError"):
                 raise Violation("lookup-of-missing-name", "getmember", {"got": r})
+
+        for ai, ar in enumerate(ars):
+            if lf[ai % len(lf)]:
+                check_listing(ai, ar)
+            else:
+                out.probe("clients_start_before_any_listing")
         if len(set(names)) < len(names):
             out.probe("duplicate_name_lookup")
         if any(len(d) == 0 for d in datas):
@@ -240,8 +279,21 @@ def execute(case):
                 h = ar.getmember(names[mi]) if via == "getmember" else ar[names[mi]]
             elif via == "iter":
                 h = list(ar)[mi]
+            elif via == "iter_partial":
+                # an iteration abandoned as soon as the wanted member was reached
+                it = iter(ar)
+                h = None
+                for _ in range(mi + 1):
+                    h = next(it)
+                del it
             else:
                 h = ar.getmembers()[mi]
+            if h.name != names[mi] or h.size != len(datas[mi]):
+                raise Violation("lookup-not-last-of-name" if via in ("getmember", "getitem")
+                                else "listing-differs", via,
+                                {"step": si, "archive": ai, "member": mi, "got_name": h.name,
+                                 "got_size": h.size, "want_name": names[mi],
+                                 "want_size": len(datas[mi])})
             key = (ai, mi)
             if key not in models:
                 models[key] = io.BytesIO(datas[mi])
@@ -317,6 +369,9 @@ def execute(case):
                 returned_data = True
             out.states.add(stable_hash([len(members), sorted(
                 (k[0], k[1], m.tell()) for k, m in models.items())]))
+        for ai, ar in enumerate(ars):
+            if not lf[ai % len(lf)]:
+                check_listing(ai, ar)
         # ---- end of run: every touched handle still yields exactly its bytes
         for (ai, mi) in sorted(models):
             h = ars[ai].getmembers()[mi]
@@ -330,7 +385,7 @@ def execute(case):
         out.interleaving = stable_hash(inter)
         out.nontrivial = len(used) >= 2 and returned_data
     finally:
-        for ar in ars:
+        for ar in ars + stale:
             for m in ar.getmembers():
                 try:
                     m.close()
